@@ -7,8 +7,10 @@ LEAN_MODULES = ["SCP.C04"]
 THEOREMS = ["SCP.C04.setText_exec", "SCP.C04.history_refines", "SCP.C04.history_slot_counts",
             "SCP.C04.execute_eq", "SCP.C04.sessions_isolated", "SCP.C04.old_cursor_violates",
             "SCP.C04.runLines_length"]
-RULE = ("histories of set_text/execute_session calls on 1-3 sessions of one long-lived calculator, interleaved with "
-        "execute() calls; texts of 1-6 generated lines (assignments, uses, failing lines, all value kinds); a history "
+RULE = ("histories of set_text/execute_session calls on 1-3 sessions (en / tr) of one long-lived calculator, interleaved with "
+        "execute() calls in both languages; texts of 1-6 generated lines (assignments, uses, failing lines, all value kinds), texts aimed at "
+        "caches (a word used as plain text, then bound, then the identical line again; the same text set and evaluated twice; operator words "
+        "of both languages on one calculator); a history "
         "is non-trivial when it re-uses a session with texts of different line counts or re-uses the calculator after "
         ">=1 other evaluation; distinct = distinct op sequences")
 ASSUMPTIONS = ["absence of writes through the shared Rc<TokenInfo> cells of the configuration is runtime aliasing the "
@@ -37,25 +39,50 @@ def nlines(t):
     return t.count("\n") + 1
 
 
+WORDS_USE = ["apples", "boxes", "tax", "rate"]
+ALIAS_LINES = ["2 times 3", "5 kere 2", "8 eksi 3", "10 minus 4", "3 carpi 4", "6 add 1", "7 topla 2", "3 gun 2 saat", "2 days 1 hour"]
+
+
+def tricky_text(rng):
+    """texts aimed at caches: a line whose word is plain text now and a variable later, the identical line again;
+    operator words of both languages"""
+    w = rng.choice(WORDS_USE)
+    use = rng.choice([f"{w} + 10", f"2 {w}", f"3 {w} + 1", f"{w} * 2"])
+    k = rng.random()
+    if k < 0.35:
+        return rng.choice([use, f"{use}\n{w} = {rng.randint(2, 9)}\n{use}", f"{w} = {rng.randint(2, 9)}\n{use}", f"{w} = {rng.randint(2, 9)}"])
+    if k < 0.6:
+        return rng.choice(ALIAS_LINES) + ("\n" + rng.choice(ALIAS_LINES) if rng.random() < 0.4 else "")
+    return L.text(rng, rng.choice([1, 1, 2, 3, 6]), names=["x", "y", "my var", "total"])
+
+
 def gen_history(ctx):
     rng = ctx.rng
     nsess = rng.randint(1, 3)
     ops = [{"op": "reset"}] if rng.random() < 0.1 else []
     hist = []
+    slang = {}
     for sid in range(nsess):
-        ops.append({"op": "sess_new", "id": sid, "lang": "en"})
+        slang[sid] = rng.choice(["en", "en", "tr"])
+        ops.append({"op": "sess_new", "id": sid, "lang": slang[sid]})
     k = rng.randint(2, 8)
+    last_text = {}
     for _ in range(k):
         if rng.random() < 0.25:
-            t = L.text(rng, 4)
-            ops.append({"op": "exec", "lang": "en", "text": t})
-            hist.append(("exec", None, t))
+            t = tricky_text(rng) if rng.random() < 0.5 else L.text(rng, 4)
+            lang = rng.choice(["en", "en", "tr"])
+            ops.append({"op": "exec", "lang": lang, "text": t})
+            hist.append(("exec", None, t, lang))
         else:
             sid = rng.randrange(nsess)
-            t = L.text(rng, rng.choice([1, 1, 2, 3, 6]), names=["x", "y", "my var", "total"])
+            if sid in last_text and rng.random() < 0.2:
+                t = last_text[sid]          # the same text set and evaluated again
+            else:
+                t = tricky_text(rng)
+            last_text[sid] = t
             ops.append({"op": "sess_text", "id": sid, "text": t})
             ops.append({"op": "sess_run", "id": sid})
-            hist.append(("sess", sid, t))
+            hist.append(("sess", sid, t, slang[sid]))
     return nsess, ops, hist
 
 
@@ -70,14 +97,14 @@ def run(ctx, model_ok):
     corpus = [
         (1, [{"op": "sess_new", "id": 0, "lang": "en"}, {"op": "sess_text", "id": 0, "text": "1\n2\n3"}, {"op": "sess_run", "id": 0},
              {"op": "sess_text", "id": 0, "text": "4"}, {"op": "sess_run", "id": 0}],
-         [("sess", 0, "1\n2\n3"), ("sess", 0, "4")]),
+         [("sess", 0, "1\n2\n3", "en"), ("sess", 0, "4", "en")]),
         (2, [{"op": "sess_new", "id": 0, "lang": "en"}, {"op": "sess_new", "id": 1, "lang": "en"},
              {"op": "sess_text", "id": 0, "text": "a = 5"}, {"op": "sess_run", "id": 0},
              {"op": "sess_text", "id": 1, "text": "a = 7\nb = 1"}, {"op": "sess_run", "id": 1},
              {"op": "sess_text", "id": 0, "text": "a + 1\nb + 1\na = a * 2"}, {"op": "sess_run", "id": 0},
              {"op": "sess_text", "id": 1, "text": "a + 1"}, {"op": "sess_run", "id": 1},
              {"op": "sess_text", "id": 0, "text": "a"}, {"op": "sess_run", "id": 0}],
-         [("sess", 0, "a = 5"), ("sess", 1, "a = 7\nb = 1"), ("sess", 0, "a + 1\nb + 1\na = a * 2"), ("sess", 1, "a + 1"), ("sess", 0, "a")]),
+         [("sess", 0, "a = 5", "en"), ("sess", 1, "a = 7\nb = 1", "en"), ("sess", 0, "a + 1\nb + 1\na = a * 2", "en"), ("sess", 1, "a + 1", "en"), ("sess", 0, "a", "en")]),
     ]
     cases = corpus + cases
 
@@ -106,13 +133,14 @@ def run(ctx, model_ok):
     index = []
     for ci, (nsess, ops, hist) in enumerate(cases):
         for sid in range(nsess):
-            texts = [t for (k, s, t) in hist if k == "sess" and s == sid]
+            texts = [t for (k, s, t, lg) in hist if k == "sess" and s == sid]
             if texts:
-                oracle_ops.append({"op": "exec_fresh", "lang": "en", "text": "\n".join(texts)})
+                slg = [lg for (k, s, t, lg) in hist if k == "sess" and s == sid][0]
+                oracle_ops.append({"op": "exec_fresh", "lang": slg, "text": "\n".join(texts)})
                 index.append((ci, "sess", sid))
-        for hi, (k, s, t) in enumerate(hist):
+        for hi, (k, s, t, lg) in enumerate(hist):
             if k == "exec":
-                oracle_ops.append({"op": "exec_fresh", "lang": "en", "text": t})
+                oracle_ops.append({"op": "exec_fresh", "lang": lg, "text": t})
                 index.append((ci, "exec", hi))
     ores = [r[0] for r in C.run_impl_sharded([[o] for o in oracle_ops], shards=14)]
     omap = {idx: r for idx, r in zip(index, ores)}
